@@ -192,9 +192,33 @@ func (cw *c08World) modifier(c c08Case) (module.Modifier, error) {
 	if m, ok := cw.mods[k]; ok {
 		return m, nil
 	}
-	kd := filepath.Join(cw.dir, "keys-"+c.Key)
+	kd := filepath.Join(cw.dir, "keys-"+strings.ReplaceAll(c.Key, ":", "_"))
+	algo := c.Key
+	if strings.HasPrefix(c.Key, "pre:") {
+		// "pre:<type of the existing key>:<newkey_algo of the configuration>": the key files were
+		// provisioned earlier (here: generated by a first instance), the operator keeps the DNS
+		// record elsewhere, and the module is started on them with a newkey_algo of its own
+		p := strings.Split(c.Key, ":")
+		txt0 := fmt.Sprintf("domains %s %s\nselector %s\nkey_path %s/{domain}_{selector}.key\nnewkey_algo %s\n", c08ASCIIDom, c08IDNDomain, c08Selector, kd, p[1])
+		n0, err := parser.Read(strings.NewReader(txt0), "c08")
+		if err != nil {
+			return nil, err
+		}
+		m0, _ := mdkim.New("modify.dkim", "c08pre", nil, nil)
+		if err := m0.(*mdkim.Modifier).Init(config.NewMap(map[string]interface{}{}, config.Node{Children: n0})); err != nil {
+			return nil, err
+		}
+		os.MkdirAll(filepath.Join(kd, "operator"), 0o700)
+		es, _ := os.ReadDir(kd)
+		for _, e := range es {
+			if strings.HasSuffix(e.Name(), ".dns") {
+				os.Rename(filepath.Join(kd, e.Name()), filepath.Join(kd, "operator", e.Name()))
+			}
+		}
+		algo = p[2]
+	}
 	txt := fmt.Sprintf("domains %s %s\nselector %s\nkey_path %s/{domain}_{selector}.key\nheader_canon %s\nbody_canon %s\nnewkey_algo %s\n",
-		c08ASCIIDom, c08IDNDomain, c08Selector, kd, c.HC, c.BC, c.Key)
+		c08ASCIIDom, c08IDNDomain, c08Selector, kd, c.HC, c.BC, algo)
 	nodes, err := parser.Read(strings.NewReader(txt), "c08")
 	if err != nil {
 		return nil, err
@@ -230,7 +254,12 @@ func (cw *c08World) lookup(key string) func(selector, domain string) (string, er
 		if selector != c08Selector {
 			return "", errors.New("NXDOMAIN selector " + selector)
 		}
-		b, err := os.ReadFile(filepath.Join(cw.dir, "keys-"+key, file+"_"+c08Selector+".dns"))
+		kd := filepath.Join(cw.dir, "keys-"+strings.ReplaceAll(key, ":", "_"))
+		b, err := os.ReadFile(filepath.Join(kd, file+"_"+c08Selector+".dns"))
+		if err != nil && strings.HasPrefix(key, "pre:") {
+			// maddy wrote no record for the provisioned key: the operator's record is published
+			b, err = os.ReadFile(filepath.Join(kd, "operator", file+"_"+c08Selector+".dns"))
+		}
 		return string(b), err
 	}
 }
@@ -654,11 +683,32 @@ func c08Enumerate(thorough bool, emit func(c08Case)) {
 	}
 }
 
+// c08PreProvisioned: key files that existed before the module was started (no .dns file next
+// to them), every (key type, configured newkey_algo) pair, plainest message shapes.
+func c08PreProvisioned(emit func(c08Case)) {
+	for _, kt := range []string{"rsa2048", "ed25519"} {
+		for _, algo := range []string{"rsa2048", "ed25519"} {
+			for _, canon := range []string{"relaxed", "simple"} {
+				for _, reload := range []bool{false, true} {
+					fr := c08Froms(c08ASCIIDom)[0]
+					var fields []c08Str
+					for _, grp := range [][]string{fr.fields, c08Tos[0].fields, c08Subjects[0].fields} {
+						for _, f := range grp {
+							fields = append(fields, c08Str(f))
+						}
+					}
+					emit(c08Case{Key: "pre:" + kt + ":" + algo, HC: canon, BC: canon, Reload: reload, Fields: fields, Body: c08Str(c08Bodies[1].body), BodyTag: c08Bodies[1].tag})
+				}
+			}
+		}
+	}
+}
+
 func TestVerifC08(t *testing.T) {
 	log.DefaultLogger.Out = log.NopOutput{}
 	r := vx.Start("C08", "spool+smtp")
 	defer r.Finish()
-	r.Rule("messages from a grammar of header-field shapes (5 From x 15 Subject x 3 To x 6 groups of further fields incl. more than 1 MiB of padding fields above the signed ones: folding with SP/TAB, fold right after the colon, whitespace-only continuation, empty values, 980-octet values, repeated fields, lower/upper-case names, 8-bit and UTF-8 values, a foreign DKIM-Signature) x 21 bodies (5 of them larger than the 32 KiB copy buffer with a line terminator or a leading dot on a buffer boundary; empty, CRLF only, leading/trailing empty lines, dot lines, trailing and inner whitespace, 998-octet line, 8-bit, UTF-8) x key {rsa2048, ed25519} x header canon x body canon x {ASCII, IDN signing domain} x {SMTPUTF8 on, off} x {first attempt, retry from the spool}; signed by modify.dkim, queued, sent by target.smtp to a scripted server; oracle: payload verifies with go-msgauth and with the independent vdkim verifier against the .dns record maddy wrote, and every tampered copy (signed field removed / altered, over-signed field added at top / bottom, body extended) is rejected by both. Quick tier: a covering subset of field-shape combinations; thorough: the full product")
+	r.Rule("messages from a grammar of header-field shapes (5 From x 15 Subject x 3 To x 6 groups of further fields incl. more than 1 MiB of padding fields above the signed ones: folding with SP/TAB, fold right after the colon, whitespace-only continuation, empty values, 980-octet values, repeated fields, lower/upper-case names, 8-bit and UTF-8 values, a foreign DKIM-Signature) x 21 bodies (5 of them larger than the 32 KiB copy buffer with a line terminator or a leading dot on a buffer boundary; empty, CRLF only, leading/trailing empty lines, dot lines, trailing and inner whitespace, 998-octet line, 8-bit, UTF-8) x key {rsa2048, ed25519; generated by the module, or provisioned beforehand without a .dns file under either newkey_algo setting} x header canon x body canon x {ASCII, IDN signing domain} x {SMTPUTF8 on, off} x {first attempt, retry from the spool}; signed by modify.dkim, queued, sent by target.smtp to a scripted server; oracle: payload verifies with go-msgauth and with the independent vdkim verifier against the .dns record maddy wrote, and every tampered copy (signed field removed / altered, over-signed field added at top / bottom, body extended) is rejected by both. Quick tier: a covering subset of field-shape combinations; thorough: the full product")
 	if rp := r.Replay(); rp != nil {
 		var c c08Case
 		if json.Unmarshal(rp, &c) != nil {
@@ -678,7 +728,7 @@ func TestVerifC08(t *testing.T) {
 		return
 	}
 	idx := 0
-	c08Enumerate(vx.Thorough(), func(c c08Case) {
+	emit := func(c c08Case) {
 		idx++
 		if !r.Mine(idx) {
 			return
@@ -702,10 +752,12 @@ func TestVerifC08(t *testing.T) {
 		if strings.HasPrefix(note, "verified") {
 			r.Nontrivial(vx.JSON(c))
 		}
-		if idx%5003 == 0 {
+		if idx%5003 == 0 || strings.HasPrefix(c.Key, "pre:") {
 			r.Sample(map[string]any{"case": c, "observed": note})
 		}
-	})
+	}
+	c08Enumerate(vx.Thorough(), emit)
+	c08PreProvisioned(emit)
 	r.Bound("cases_enumerated", idx)
 	if c08W != nil {
 		c08W.q.Close()
